@@ -133,6 +133,39 @@ theorem C43_counterexample_float : ¬ C43_float_full := by
   revert this
   decide +kernel
 
+/-- What does hold for binary64: the CLOSED ranges.  For a wrap that is a binary64 value
+(`rn w = w`) the rounded one-sided wrap lies in `[0, w]` (resp. `[w, 0]`): rounding to nearest is
+monotone, so it can reach the excluded end but never pass it. -/
+theorem C43_float_wrap1_closed_range (a w : Rat) (hw : rn w = w) :
+    (0 < w → 0 ≤ wrap1F a w ∧ wrap1F a w ≤ w) ∧ (w < 0 → w ≤ wrap1F a w ∧ wrap1F a w ≤ 0) := by
+  have h := pymodF_range a w hw
+  unfold wrap1F
+  constructor
+  · intro h0; simp only [ne_eq, Rat.ne_of_gt h0, not_false_eq_true, if_true]; exact h.1 h0
+  · intro h0; simp only [ne_eq, Rat.ne_of_lt h0, not_false_eq_true, if_true]; exact h.2 h0
+
+/-- … and the rounded two-sided wrap, hence the rounded `delta`, lies in `[-|w|, |w|]` -/
+theorem C43_float_wrap2_range (a w : Rat) (hw : rn w = w) (h0 : w ≠ 0) :
+    -(pabs w) ≤ wrap2F a w ∧ wrap2F a w ≤ pabs w := by
+  unfold wrap2F
+  simp only [ne_eq, h0, not_false_eq_true, if_true]
+  split
+  · have hnw : rn (-w) = -w := by rw [rn_neg, hw]
+    have h := pymodF_range (rn (pymodF a (rn (w * 2)) - w)) (-w) hnw
+    by_cases hp : 0 < w
+    · have := h.2 (by grind)
+      rw [pabs_of_nonneg (Rat.le_of_lt hp)]; constructor <;> grind
+    · have hn : w < 0 := by grind
+      have := h.1 (by grind)
+      rw [pabs_of_nonpos (Rat.le_of_lt hn)]; constructor <;> grind
+  · next hc => exact pabs_le_iff _ _ hc
+
+theorem C43_float_delta_range (d a w : Rat) (hw : rn w = w) (h0 : w ≠ 0) :
+    -(pabs w) ≤ deltaF d a w ∧ deltaF d a w ≤ pabs w :=
+  C43_float_wrap2_range _ w hw h0
+
+example : rn 360 = 360 ∧ wrap1F (mkRat (-6646139978924579) (2 ^ 119)) 360 = 360 := by decide +kernel
+
 /-- Proved part: where no rounding occurs (`floatDiffers = false`, the region predicate of D43a)
 the binary64 results ARE the exact results, so every theorem of this file applies to them. -/
 theorem C43_float_agrees_partial (d a w : Rat) (H : floatDiffers d a w = false) :
